@@ -471,6 +471,9 @@ def describe_outcome(kind, exc):
     if isinstance(exc, SIM_ERRORS) and getattr(exc, 'tag', None) is not None:
         # (the very exception the event failed with: a collected failure stays collected)
         return ('SimErr', exc.tag, 'collected' if isinstance(exc, usim.Concurrent) else 'plain')
+    if isinstance(exc, AssertionError) and 'may only be specialised by Exception subclasses' in str(exc):
+        # the native layer's usage assertion about failures that are no Exception (debug mode)
+        return ('AssertionError', 'failure-that-is-no-exception')
     return (type(exc).__name__, None)
 
 
@@ -559,12 +562,13 @@ def compare(case, spec):
         stats['until_time'] += 1
     if until and 'event' in until:
         stats['until_event'] += 1
-    if (ref_outcome[0] == 'SimErr' and outcome[0] == 'AssertionError'
-            and isinstance(SimErr(ref_outcome[1]), SimAbort)):
-        # An *unhandled* failure of a type that is no Exception: the scope hosting the
-        # environment refuses to wrap it ("'Concurrent' may only be specialised by Exception
-        # subclasses", an assertion of the native layer, absent under -O) - the run does end
-        # with an error at that time, which error is outside of what the statement fixes.
+    if outcome == ('AssertionError', 'failure-that-is-no-exception'):
+        # A failure of a type that is no Exception reached the scope hosting the environment,
+        # which refuses to wrap it ("'Concurrent' may only be specialised by Exception
+        # subclasses", a usage assertion of the native layer, absent under -O): the run ends
+        # with that assertion - whatever the reference kernel makes of the failure (unhandled,
+        # or handled only through a chained `until` event) is outside of what the statement
+        # fixes for such types in debug mode.
         stats['runs_ended_by_exception'] += 1
         return violations, stats
     if outcome != ref_outcome:
@@ -657,6 +661,8 @@ def embedded_family(case, spec, ref_world, stats):
                                'msg': 'embedded environment swallowed %s' % (ref[1],),
                                'case': dict(case)})
         return violations
+    if outcome == ('AssertionError', 'failure-that-is-no-exception'):
+        return violations       # (see compare(): usage assertion of the native layer)
     if outcome[0] != 'ok':
         violations.append({'mechanism': 'c18:embedded-run-failed',
                            'msg': 'embedded run ended with %s, standalone reference ok' % (outcome,),
